@@ -25,5 +25,11 @@ pub mod program;
 pub mod span;
 pub mod token;
 
+/// Verification hooks (scripted heap driving the real collector).
+#[cfg(feature = "verif-hooks")]
+pub mod verif_hooks {
+    pub use crate::gc::verif::ScriptedHeap;
+}
+
 type FHashMap<K, V> = std::collections::HashMap<K, V, foldhash::fast::RandomState>;
 type FHashSet<T> = std::collections::HashSet<T, foldhash::fast::RandomState>;
